@@ -241,6 +241,12 @@ def diff(s0, s1, allow=None, t=None):
             if n[tid] != want:
                 out.append((k, "queried list is not the stable time-sort of the old one: %s -> %s (expected %s)" % (o[tid], n[tid], want)))
             continue
+        if k.startswith("identity"):
+            da, db = dict(A[k]), dict(B[k])
+            ch = [_show(n) for n in da if n in db and db[n] != da[n]]
+            out.append((k, "object(s) replaced by other objects: %s; entries removed: %s; added: %s"
+                        % (ch[:6], [_show(n) for n in da if n not in db][:6], [_show(n) for n in db if n not in da][:6])))
+            continue
         out.append((k, _where(A[k], B[k])))
     return sorted(out)
 
@@ -633,7 +639,7 @@ def run(ctx):
              "engine_query_steps": {k: v for k, v in eng["stats"].get("op_kinds", {}).items() if k.startswith("q_")},
              "excluded_operations": ["Tracks._get_new_node_ids (advances node_id_counter; private fresh-id source, not a read-only query)"],
              "runner_errors": len(errors)}
-    violations.sort(key=lambda v: (len(str(v.get("input", ""))), v.get("what", "")))
+    violations.sort(key=lambda v: (str((v.get("input") or {}).get("field", "")).startswith("identity"), len(str(v.get("input", ""))), v.get("what", "")))
     return {"evaluations": evaluations + qsteps + eng["evaluations"], "distinct_nontrivial": distinct + eng["distinct_nontrivial"],
             "rule": "objects: random configuration (2D+t / 3D+t, with / without segmentation, scale None / list / tuple / ndarray, single-key or per-axis positions, extra features, custom feature) x random forest (0-8 nodes) x {freshly constructed, after a random editing session of 4-22 operations, the same followed by 1-3 undos (pending redo entries), plain Tracks}; on each object every read-only operation (CSV export full / subset / display names / colors / with segmentation; GEFF export full / subset / zarr 3 / into an existing directory; save; all queries with valid and invalid arguments) is called between two deep snapshots. evaluations = read-only calls snapshot-compared + query steps compared with the model + engine steps; non-trivial = a call that returned normally on a non-empty object; distinct = distinct (object, call) pairs. "
                     + eng["rule"],
